@@ -59,8 +59,9 @@ def case_leafs():
     num = E.Number(minimum=1, exclusiveMaximum=9, multipleOf=0.5)
     arr = E.Array([E.Integer(), E.String(enum=["a", "b"])], additionalItems=False,
                   contains=E.Element(const=1))
-    return {"n": num, "a": arr}, [("n", 2.5), ("n", 9), ("a", [1, "a"]), ("a", [2, "c"]),
-                                  ("n", 0.75), ("a", [1, "b", 3])]
+    req = E.Element(required=["k"], maxProperties=2)      # explicit required list, no required property
+    return {"n": num, "a": arr, "q": req}, [("n", 2.5), ("n", 9), ("a", [1, "a"]), ("a", [2, "c"]),
+                                            ("n", 0.75), ("a", [1, "b", 3]), ("q", {"k": 1}), ("q", {"j": 2})]
 
 
 def case_models():
@@ -202,14 +203,6 @@ def case_formats():
                          ("r", {"d": "yesterday-ish"})]
 
 
-def case_explicit_required():
-    """explicit required= list together with a required property (grows on every call on the
-    pinned tree: Required.from_element, a C08 matter) -- exercises the drift path"""
-    E, P = _lib()
-    root = E.Element(required=["a"], properties={"a": P(E.Integer()), "b": P(E.String(), required=True)})
-    return {"r": root}, [("r", {"a": 1, "b": "x"}), ("r", {"a": 1}), ("r", {"b": "y"})]
-
-
 def case_cross_renamed():
     """ONE property object declared by two elements under DIFFERENT attribute names"""
     E, P = _lib()
@@ -247,7 +240,7 @@ def cases(tier):
     cs = [
         Case("elem2", case_elem2, [(0, 4), (1, 2), (0, 3), (0, 1, 2)]),
         Case("wide", case_wide, [(0, 1), (0, 2), (3, 4), (0, 5), (0, 1, 2)]),
-        Case("leafs", case_leafs, [(0, 1), (2, 3), (4, 5)]),
+        Case("leafs", case_leafs, [(0, 1), (6, 7), (2, 3), (4, 5)]),
         Case("models", case_models, [(0, 6), (2, 7), (0, 1), (2, 4), (3, 5), (0, 2), (0, 2, 4)]),
         Case("additional", case_additional, [(0, 1), (4, 5), (1, 2), (0, 3), (5, 6), (0, 1, 3)]),
         Case("array_objs", case_array_objs, [(0, 1), (2, 3), (0, 2), (4, 5), (0, 1, 2)]),
@@ -255,7 +248,6 @@ def cases(tier):
         Case("defaults", case_defaults, [(0, 1), (2, 3), (0, 4), (0, 1, 4)]),
         Case("shared_sub", case_shared_sub, [(0, 1), (2, 3), (0, 4), (0, 2, 3)]),
         Case("formats", case_formats, [(0, 1), (2, 3)]),
-        Case("explicit_required", case_explicit_required, [(0, 1), (1, 2)]),
         Case("cross_renamed", case_cross_renamed, [(0, 1), (2, 3), (1, 0)], finding="cross_renamed"),
         Case("control", case_control, [(0, 1), (0, 1, 2)]),
     ]
@@ -500,6 +492,12 @@ def setup_process():
     sys.setrecursionlimit(max(sys.getrecursionlimit(), 5000))
 
 
+def _libdir():
+    import os
+    import statham
+    return os.path.dirname(os.path.abspath(statham.__file__)) + os.sep
+
+
 def tree_hash(tree):
     return hashlib.sha1(repr(sorted(tree.items())).encode()).hexdigest()[:16]
 
@@ -570,14 +568,14 @@ def replay(task):
     w = World(case, group, variant)
     MON.diff = False
     MON.log_reads = bool(opts.get("paths", True))
-    MON.trace_calls = common.REPO.rstrip("/") + "/statham" if opts.get("fn_entries") else None
+    MON.trace_calls = _libdir() if opts.get("fn_entries") else None
     MON.active = True
     try:
         results, logs, steps = run_gated(MON, [w.thunk(k) for k in range(len(group))], schedule, tail)
     finally:
         MON.active = False
         MON.trace_calls = None
-    return dict(got=results, tree1=w.tree(), tree0=w.tree0, steps=steps,
+    return dict(got=results, tree1=w.tree(), tree0=w.tree0, steps=steps, stalls=getattr(MON, "last_stalls", 0),
                 paths=[[e[:3] for e in lg if e[0] in "rw"] for lg in logs] if opts.get("paths", True) else None)
 
 
@@ -587,7 +585,9 @@ def replay_many(task):
     out = []
     for tag, schedule, tail in scheds:
         ob = replay((cname, group, variant, schedule, tail, opts))
-        out.append((tag, summarise(ob, ref)))
+        summ = summarise(ob, ref)
+        summ["schedule"], summ["tail"] = schedule, tail
+        out.append((tag, summ))
     return out
 
 
@@ -602,7 +602,7 @@ def summarise(ob, ref):
     if ob.get("paths") is not None and ref.get("paths") is not None:
         path_drift = [p != q for p, q in zip(ob["paths"], ref["paths"])]
     s = dict(got=[tuple(g) for g in ob["got"]], same_out=same_out, tree1=t1, tree_same=tree_ok,
-             tree_in_seq=in_seq, steps=ob["steps"], path_drift=path_drift)
+             tree_in_seq=in_seq, steps=ob["steps"], path_drift=path_drift, stalls=ob.get("stalls", 0))
     if not (tree_ok or in_seq):
         s["tree_diff"] = tree_diff(ob["tree0"], ob["tree1"])
     return s
